@@ -503,26 +503,34 @@ func b01(b bool) string {
 }
 
 func c15ZTables(blobs ...[]byte) (string, string) {
-	var zt, ct []string
-	seenZ, seenC := map[string]bool{}, map[string]bool{}
-	addC := func(p []byte) {
-		if seenC[string(p)] {
-			return
+	// close the set under compress / decompress (two rounds: what a server may re-encode and a
+	// client decode again), then tabulate both functions on it
+	set := map[string]bool{}
+	var order []string
+	add := func(x []byte) {
+		if !set[string(x)] {
+			set[string(x)] = true
+			order = append(order, string(x))
 		}
-		seenC[string(p)] = true
-		ct = append(ct, vh.Hex(p)+":"+vh.Hex(c15Compress(p)))
 	}
 	for _, x := range blobs {
-		if seenZ[string(x)] {
-			continue
+		add(x)
+	}
+	for round := 0; round < 2; round++ {
+		for _, x := range append([]string{}, order...) {
+			add(c15Compress([]byte(x)))
+			if d, err := desync.Decompress(nil, []byte(x)); err == nil && len(x) > 0 {
+				add(d)
+			}
 		}
-		seenZ[string(x)] = true
-		addC(x)
-		if d, err := desync.Decompress(nil, x); err == nil && len(x) > 0 {
-			zt = append(zt, vh.Hex(x)+":"+vh.Hex(d))
-			addC(d)
+	}
+	var zt, ct []string
+	for _, x := range order {
+		ct = append(ct, vh.Hex([]byte(x))+":"+vh.Hex(c15Compress([]byte(x))))
+		if d, err := desync.Decompress(nil, []byte(x)); err == nil && len(x) > 0 {
+			zt = append(zt, vh.Hex([]byte(x))+":"+vh.Hex(d))
 		} else {
-			zt = append(zt, vh.Hex(x)+":!")
+			zt = append(zt, vh.Hex([]byte(x))+":!")
 		}
 	}
 	return strings.Join(zt, ","), strings.Join(ct, ",")
